@@ -461,6 +461,9 @@ def run(ck):
         attach.run_repository_tests(ck, ["log"])        # the repository's own tests, Log monitor attached
         ck.require("suite/ran_under_monitors")
     ck.note_add("attached_log_calls", st["log_calls"])
+    if ck.shard == 0:
+        from .. import history
+        history.run(ck, "C02", reps=4 if ck.tier == "thorough" else 2)
     ck.floor("log_attached", 50)
     ck.floor("log_expm", 1000)
     ck.floor("log_negq", 500)
